@@ -5,6 +5,7 @@ import ast
 from typing import Dict, List, Set
 
 from ..cfg import Builder, build_cfg, default_may_raise, guards_of, parent_map
+from ..smallstep import render as render_
 from ..src import rename_id, AnalysisError, loc, norm, own_nodes
 
 RUNNER = "tdgl.solver.runner"
@@ -281,18 +282,19 @@ def cancellation(ctx):
            detail=Vr["result"][:3], where=fr.fq, construct="returns of run()", message=f"{Vr['result'][:1]}",
            consequence="a cancelled recorded stage returns no Solution although frames were written")
     fs = repo.func(SOLVER, "TDGLSolver.solve")
-    pm2 = parent_map(fs.node)
-    sol = [n for n in own_nodes(fs.node) if isinstance(n, ast.Assign) and isinstance(n.value, ast.Call) and norm(n.value.func) == "Solution"]
-    ok = len(sol) == 1
-    if ok:
-        g = [("" if br == "true" else "not ") + norm(x.test) for x, br in guards_of(fs.node, sol[0], pm2) if isinstance(x, ast.If)]
-        inw = any(isinstance(x, ast.With) for x, _ in guards_of(fs.node, sol[0], pm2))
-        # the guard is the result of runner.run(), whatever the local is called
-        runs = [norm(n.targets[0]) for n in own_nodes(fs.node) if isinstance(n, ast.Assign) and isinstance(n.value, ast.Call)
-                and isinstance(n.value.func, ast.Attribute) and n.value.func.attr == "run" and not n.value.args]
-        ok = len(runs) == 1 and g == [runs[0]] and inw
+    # solve() followed to its end (pvs/tables.py; private helpers of the solver included) for run() -> True / False
+    from ..tables import solve_outcomes
+    bad4 = []
+    for ran, events, (kind, val) in solve_outcomes(repo):
+        if kind != "return":
+            bad4.append(f"run() -> {ran}: solve() raises {val}")
+        elif ran and (events != ["WITH-ENTER", "RUN", "SOLUTION", "SAVE", "WITH-EXIT"] or render_(val) != "SOLUTION"):
+            bad4.append(f"run() -> True: {events}, returns {render_(val)[:60]}")
+        elif not ran and (events != ["WITH-ENTER", "RUN", "WITH-EXIT"] or val is not None):
+            bad4.append(f"run() -> False: {events}, returns {render_(val)[:60]}")
+    ok = not bad4
     ctx.ob("R15.4", "solve() builds and saves the Solution iff run() returned True, inside the with block", ok, where=fs.fq,
-           construct="Solution construction", message="Solution is not built exactly when data was generated",
+           construct="Solution construction", detail=bad4, message=f"Solution is not built exactly when data was generated: {bad4[:2]}",
            consequence="cancellation returns None although a partial result exists")
 
 
